@@ -68,7 +68,7 @@ T = {
             "Every call over generated charts (1-8 tempo points, SVs before/at/between tempo points, overrides) is compared with exact step-function integration; both readings of 'last object' and both precedences at exact coincidence are accepted.",
             "Near-ties excluded by a 1 ms margin; ties judged with the any-maximal rule."),
     "C20": ("partition/window invariant monitor on Pattern.group + brute-force product reference on PtnCombo.combinations / templates / filters",
-            "Every group() and combinations() execution over generated note sets (ties, repeated columns, hold tails, all windows, jack settings, sizes 2-4, all filter options) is checked against partition/window invariants and a brute-force itertools.product with reference filter semantics.",
+            "Every from_note_lists(), group() and combinations() execution over generated note sets (ties, repeated columns, hold tails, all windows, jack settings, sizes 2-4, all filter options) is checked against partition/window invariants and a brute-force itertools.product with reference filter semantics.",
             "Reference option expansions derived from the documented options."),
 }
 
@@ -108,7 +108,7 @@ def main():
         engines=[dict(name="rv", path="/verif/rv", serves_properties=[c["property_id"] for c in checks],
                       kind_free_text="Python runtime-monitoring framework: monitors wrapped around the real reamber functions, reference interpreters/models as oracles, sharded seeded workloads, sys.monitoring reach probes, known-finding matching by mechanism")],
         checks=checks,
-        notes="exit codes: 0 held on everything observed, 1 VIOLATION, 2 INCONCLUSIVE (deciding monitor judged nothing / shard watchdog). VERIF_SEED and VERIF_TIER are honoured; VERIF_REPO points the checks at another working tree.",
+        notes="exit codes: 0 held on everything observed, 1 VIOLATION, 2 INCONCLUSIVE (deciding monitor judged nothing / shard watchdog). VERIF_SEED and VERIF_TIER are honoured; VERIF_REPO points the checks at another working tree. Next to inputs and call histories the checks explore process configurations under which the unchanged tree gives the same answers: every fifth case runs under pandas copy-on-write (VERIF_PANDAS_COW_EVERY overrides; 0 = off), every fourth read_file comparison stores the text with a UTF-8 byte order mark and every fourth with CRLF line ends, and C01 / C03 / C06 start one child interpreter under LC_ALL=C with UTF-8 mode off for write_file / read_file.",
         not_applicable=na,
     )
     p = os.path.join(HERE, "MANIFEST.json")
